@@ -340,7 +340,13 @@ pub fn gen_tree(
         match rng.below(160) {
             0 => {
                 let n = rng.range(257, 300);
-                let texts: Vec<String> = (0..3).map(|_| screen.gen_text(rng)).collect();
+                // usually small files; sometimes files stuffed with findings, so that the report of
+                // such a tree is several hundred kilobytes long
+                let texts: Vec<String> = if rng.chance(1, 5) {
+                    vec![crate::corpus::stuffed_text(rng.below(crate::corpus::PRAGMAS.len()))]
+                } else {
+                    (0..3).map(|_| screen.gen_text(rng)).collect()
+                };
                 let dir = if rng.chance(1, 2) { root.to_string() } else { join(root, "wide") };
                 for i in 0..n {
                     let p = join(&dir, &format!("f{:03}.sol", i));
